@@ -106,10 +106,13 @@ char_escape_dict = {
     '?': 0x3F,
 }
 escape_chars = ''.join(k for k in char_escape_dict)
-char = fr'[\x20-\x5B\x5D-\x7E]|\\[{re.escape(escape_chars)}]|\\[xX][0-9a-fA-F]{{2}}'
+char_escape = fr'\\[{re.escape(escape_chars)}]|\\[xX][0-9a-fA-F]{{2}}'
+char = fr'[\x20-\x5B\x5D-\x7E]|{char_escape}'
+# inside a string a double-quote must be escaped (\") - an unescaped one ends the string
+string_char = fr'[\x20\x21\x23-\x5B\x5D-\x7E]|{char_escape}'
 
 number_re = fr"({bin_num})|({hex_num})|('({char})')|({dec_num})"
-string_re = fr'"({char})*"'
+string_re = fr'"({string_char})*"'
 
 
 def get_char_value_and_length(s: str) -> Tuple[int, int]:
